@@ -24,14 +24,18 @@ LEVEL_TEXT = ("Theorems, all for every input/history: Griffe's reversed/zip_long
               "container refines an abstract list under every operation sequence, lookup by name = first match in iteration order, name/index agree, "
               "deletion shifts positions and leaves other names alone, distinct names are an invariant (and needed: refutations), the bound-method view of a "
               "definition equals CPython's; handle_function: names do not interfere, every implementation carries exactly the overloads declared since the "
-              "previous implementation of its name, a re-binding definition resets the name (if/else branches), accessors keep the property, and for "
+              "previous implementation of its name, a re-binding definition resets the name (if/else branches), accessors keep the property; for every body "
+              "tagged live/dead that the decidable check dead_ok accepts, the dead statements are invisible in Griffe's flow-insensitive result, hence "
+              "the whole body agrees with CPython executing its live part; the single traversal over nested class bodies equals the per-scope visits; for "
               "every body CPython executes, CPython's namespace and overload registry equal Griffe's members and the concatenation of the attached "
               "overload lists plus the pending ones. Models tied to the code by a translator, exhaustive-small + random differential runs and "
               "per-object observation through an extension.")
 LEVEL_NOTE = ("Trusted: Coq kernel, extraction, the translator's whitelist, the harness abstraction (ast -> model terms; decorator callable paths "
               "are supplied by construction of the generated source), CPython as authority. Annotation/default expression text is opaque (C03). "
               "Modelled, not verified: that the visitor meets the definitions of a body in source order whatever the nesting of if/try blocks "
-              "(the (C) streams exercise it); assignment re-binders (they forward labels) are not in the model. "
+              "(the (C) streams exercise it); which statements CPython runs (constant flags chosen by the generator; dead_ok itself is evaluated by the "
+              "extracted model on every body with an untaken branch and gates the direct comparison); assignment re-binders (they forward labels) are "
+              "not in the model; dead_ok is sufficient, not necessary. "
               "CPython's typing registry is cumulative per qualified name: agreement of a *redefined* overloaded name with typing.get_overloads "
               "is stated as a decomposition theorem, not as equality. All theorems are closed under the global context.")
 MODEL = ("Model.C02_run", "run_C02")
